@@ -32,6 +32,7 @@ MODULES = [
     ("DeclPin", "gen_declpin"),
     ("TopLoop", "gen_toploop"),
     ("Dispatch", "gen_dispatch"),
+    ("VisitorTable", "gen_visitor"),
     ("PinsC01", "gen_pins_c01"),
     ("PinsC02", "gen_pins_c02"),
     ("PinsC03", "gen_pins_c03"),
